@@ -228,6 +228,7 @@ def build4(name="EQ"):
                                                              Comp("q10", Type("BOOLEAN"))])))
     m.add("E11", Type("SEQUENCE", comps=[Comp("q11", Type("IA5String"), has_default=True, default='say "hi"'),
                                          Comp("r11", Type("VisibleString"), has_default=True, default='"'),
+                                         Comp("b11", Type("IA5String"), has_default=True, default="a\\b\\"),
                                          Comp("n11", Type("INTEGER"))]))
     # time values that leave room for every non-DER notation (zero seconds / minutes), special REAL values
     m.add("E12", Type("GeneralizedTime"))
@@ -275,7 +276,7 @@ def values4(mod, name, rng, quick):
     elif name == "E10":
         out = [[{"p10": 1, "q10": False}, {"p10": 1, "q10": True}, {"p10": 0, "q10": True}], [{"p10": 3, "q10": True}, {"p10": 2, "q10": True}], []]
     elif name == "E11":
-        out = [{"n11": 1}, {"q11": 'say "hi"', "n11": 2}, {"r11": '"', "n11": 3}, {"q11": 'say "hi', "r11": '""', "n11": 4}, {"q11": "x", "r11": "y", "n11": 5}]
+        out = [{"n11": 1}, {"q11": 'say "hi"', "n11": 2}, {"r11": '"', "n11": 3}, {"q11": 'say "hi', "r11": '""', "n11": 4}, {"q11": "x", "r11": "y", "n11": 5}, {"b11": "a\\b\\", "n11": 6}, {"b11": "ab", "n11": 7}]
     elif name == "E12":
         out = ["20200101120000Z", "20200101123000Z", "20200101123045Z", "20200101123045.5Z", "19991231235959.999Z"]
     elif name == "E13":
